@@ -40,8 +40,12 @@ func NewEval(opts CompilerOptions, globals Object, args ...Object) *Eval {
 
 // Run compiles, runs given script and returns last value on stack.
 func (r *Eval) Run(ctx context.Context, script []byte) (Object, *Bytecode, error) {
+	// a failed compilation must not leave modules in the store: their
+	// constants are discarded together with the bytecode.
+	modules := r.moduleStore.clone()
 	bytecode, err := compileScript(script, &r.Opts, &r.moduleStore)
 	if err != nil {
+		r.moduleStore = modules
 		return nil, nil, err
 	}
 
